@@ -93,6 +93,10 @@ func (g *Gen) run() {
 	for _, r := range c.Requires {
 		pre = append(pre, g.transBool(r.E, env))
 	}
+	for _, r := range c.Assumes {
+		pre = append(pre, g.transBool(r.E, env))
+		g.assumptions["unchecked assumption about the callers of "+g.fnName+": "+r.E.String()] = true
+	}
 	g.curR = "true"
 	if len(pre) > 0 {
 		g.curR = g.define("reach_entry", "Bool", "(and "+strings.Join(pre, " ")+" true)")
